@@ -238,3 +238,16 @@ META = {
         "public wrappers pika::recursive_mutex / pika::spinlock aliases, timed_mutex::try_lock_for (forwarders)",
     ],
 }
+
+
+# ---- C07 units reused (added after seeded change C06-4 was missed): mutex::lock/unlock hand the lock on through
+# ---- detail::condition_variable wait / wait_until / notify_one (a waiter that leaves wait() must leave the queue; notify_one
+# ---- wakes a queued waiter); these are the C07 units of the same name, run here as well
+_c07 = {"__name__": "c07_reuse"}
+exec(compile(open("/verif/specs/C07/spec.py").read(), "/verif/specs/C07/spec.py", "exec"), _c07)
+for _u in _c07["UNITS"]:
+    if _u.name in ("cv.wait", "cv.wait_until", "cv.notify_one", "cv.notify_all", "cv.abort_all"):
+        _u.name = "c07." + _u.name
+        _u.template = "../C07/" + _u.template
+        UNITS.append(_u)
+META["trusted_base"] = list(META.get("trusted_base", [])) + ["units c07.* are the C07 units of the same name (specs/C07/cv.c, cv.h) with their trusted base"]
